@@ -169,10 +169,21 @@ func (w *World) Send(from Acct, to []byte, amt, fee, height uint64, memo string)
 	return w.sign(from.Priv(), &fsm.MessageSend{FromAddress: from.Addr(), ToAddress: to, Amount: amt}, fee, height, w.Chain, memo)
 }
 
+// SendSignedBy builds a send from `from` that is (validly) signed by the key of `signer` - unauthorized when they differ.
+func (w *World) SendSignedBy(signer, from Acct, to []byte, amt, fee, height uint64) []byte {
+	return w.sign(signer.Priv(), &fsm.MessageSend{FromAddress: from.Addr(), ToAddress: to, Amount: amt}, fee, height, w.Chain, "")
+}
+
+// EditStake builds an edit-stake of validator i (keys.BLS(i)) to a new total amount, keeping the world's committees.
+func (w *World) EditStake(i int, amount, fee, height uint64) []byte {
+	k := keys.BLS(i)
+	return w.sign(k, &fsm.MessageEditStake{Address: chainsim.Addr(k), Amount: amount, Committees: w.committees(), NetAddress: "tcp://127.0.0.1", OutputAddress: chainsim.Addr(k)}, fee, height, w.Chain, "")
+}
+
 // TxKinds lists the generated kinds (for class accounting).
 var TxKinds = []string{"send", "send-broke", "double-spend", "stake-new", "edit-stake-up", "pause", "unpause", "unstake", "bad-sig", "wrong-chain",
 	"noncanonical", "dup-same", "low-fee", "change-param", "dao-transfer", "subsidy", "create-order", "big-memo", "hostile-amount", "future-height", "send-self",
-	"dex-order", "dex-deposit", "dex-withdraw", "create-order-peer", "lock-orders", "param-approved"}
+	"dex-order", "dex-deposit", "dex-withdraw", "create-order-peer", "lock-orders", "param-approved", "param-approved-valid"}
 
 // ForChain returns a copy of the world that signs for another chain (same keys and accounts).
 func (w *World) ForChain(chain, peer uint64) *World {
@@ -297,7 +308,7 @@ func (w *World) GenTx(t *rapid.T, height uint64, kinds []string) []Tx {
 		from := rich("from")
 		amt := rapid.SampledFrom([]uint64{0, 1 << 63, ^uint64(0), RichAmount, RichAmount + 1}).Draw(t, "amt")
 		return one(w.sign(from.Priv(), &fsm.MessageSend{FromAddress: from.Addr(), ToAddress: Addr(1, 29), Amount: amt}, fee, height, w.Chain, ""), "maybe", fmt.Sprintf("hostile-amount %s %d", from, amt))
-	case "param-approved":
+	case "param-approved", "param-approved-valid":
 		// an APPROVED parameter change (on every node's approve list), with a valid or an INVALID value, directly followed
 		// (next in fee order) by a transaction that reads the parameter
 		from := rich("from")
@@ -306,8 +317,11 @@ func (w *World) GenTx(t *rapid.T, height uint64, kinds []string) []Tx {
 			val        uint64
 			reader     string
 		}
-		c := rapid.SampledFrom([]pc{{"val", "unstakingBlocks", 0, "unstake"}, {"val", "maxPauseBlocks", 0, "pause"}, {"val", "unstakingBlocks", 7, "unstake"},
-			{"val", "maxPauseBlocks", 9, "pause"}, {"val", "delegateUnstakingBlocks", 1, "unstake"}, {"val", "nonSignWindow", 0, "pause"}, {"fee", "sendFee", 9000, "send"}}).Draw(t, "paramChange")
+		choices := []pc{{"val", "unstakingBlocks", 7, "unstake"}, {"val", "maxPauseBlocks", 9, "pause"}, {"fee", "sendFee", 9000, "send"}}
+		if kind == "param-approved" {
+			choices = append(choices, pc{"val", "unstakingBlocks", 0, "unstake"}, pc{"val", "maxPauseBlocks", 0, "pause"}, pc{"val", "delegateUnstakingBlocks", 1, "unstake"}, pc{"val", "nonSignWindow", 0, "pause"})
+		}
+		c := rapid.SampledFrom(choices).Draw(t, "paramChange")
 		a, _ := lib.NewAny(&lib.UInt64Wrapper{Value: c.val})
 		m := &fsm.MessageChangeParameter{ParameterSpace: c.space, ParameterKey: c.key, ParameterValue: a, StartHeight: height, EndHeight: height + 10, Signer: from.Addr()}
 		out := []Tx{{Bytes: w.sign(from.Priv(), m, fee+9000, height, w.Chain, ""), Kind: kind, Intent: "maybe", Proposal: true, Desc: fmt.Sprintf("APPROVED change-param %s/%s=%d by %s", c.space, c.key, c.val, from)}}
